@@ -1,1 +1,237 @@
 //! Shared helpers: symbolic generators and dense reference oracles.
+//!
+//! Rule (DESIGN.md §1): no symbolic-length Vec.  Shapes (m, n, nnz) are concrete (const
+//! generics), contents are symbolic and constrained by the canonical-format predicate.
+use clarabel::algebra::*;
+use clarabel::solver::SupportedConeT;
+
+/// column of the k-th stored entry: number of j in 1..=n with colptr[j] <= k
+pub fn col_of(colptr: &[usize], k: usize) -> usize {
+    let n = colptr.len() - 1;
+    let mut c = 0;
+    let mut j = 1;
+    while j <= n {
+        if colptr[j] <= k {
+            c += 1;
+        }
+        j += 1;
+    }
+    c
+}
+
+/// is k the first stored entry of some column (with respect to colptr)?
+pub fn is_col_start(colptr: &[usize], k: usize) -> bool {
+    let n = colptr.len() - 1;
+    let mut j = 0;
+    let mut r = false;
+    while j <= n {
+        if colptr[j] == k {
+            r = true;
+        }
+        j += 1;
+    }
+    r
+}
+
+/// reference predicate: canonical CSC encoding (what `check_format` is documented to accept)
+pub fn is_canonical<T>(A: &CscMatrix<T>) -> bool {
+    if A.rowval.len() != A.nzval.len() {
+        return false;
+    }
+    if A.colptr.len() != A.n + 1 {
+        return false;
+    }
+    if A.colptr[0] != 0 || A.colptr[A.n] != A.rowval.len() {
+        return false;
+    }
+    let mut j = 0;
+    while j < A.n {
+        if A.colptr[j] > A.colptr[j + 1] {
+            return false;
+        }
+        j += 1;
+    }
+    let nnz = A.rowval.len();
+    let mut k = 0;
+    while k < nnz {
+        if A.rowval[k] >= A.m {
+            return false;
+        }
+        if k > 0 && !is_col_start(&A.colptr, k) && A.rowval[k - 1] >= A.rowval[k] {
+            return false;
+        }
+        k += 1;
+    }
+    true
+}
+
+/// symbolic canonical CSC pattern (colptr, rowval) for an M x N matrix with exactly NNZ stored entries
+pub fn any_pattern<const M: usize, const N: usize, const NNZ: usize>() -> (Vec<usize>, Vec<usize>) {
+    let mut colptr = vec![0usize; N + 1];
+    let mut j = 1;
+    while j < N {
+        let c: usize = kani::any();
+        kani::assume(c >= colptr[j - 1] && c <= NNZ);
+        colptr[j] = c;
+        j += 1;
+    }
+    colptr[N] = NNZ;
+    let mut rowval = vec![0usize; NNZ];
+    let mut k = 0;
+    while k < NNZ {
+        let r: usize = kani::any();
+        kani::assume(r < M);
+        if k > 0 && !is_col_start(&colptr, k) {
+            kani::assume(rowval[k - 1] < r);
+        }
+        rowval[k] = r;
+        k += 1;
+    }
+    (colptr, rowval)
+}
+
+/// small symbolic integer in [-lim, lim]
+pub fn small_i32(lim: i32) -> i32 {
+    let v: i32 = kani::any();
+    kani::assume(v >= -lim && v <= lim);
+    v
+}
+
+/// small symbolic integer-valued f64 in [-lim, lim] (IEEE arithmetic on these is exact)
+pub fn small_f64(lim: i8) -> f64 {
+    let v: i8 = kani::any();
+    kani::assume(v >= -lim && v <= lim);
+    v as f64
+}
+
+/// symbolic canonical M x N i32 matrix with NNZ stored entries (values in [-4,4], zeros allowed)
+pub fn any_csc_i32<const M: usize, const N: usize, const NNZ: usize>() -> CscMatrix<i32> {
+    let (colptr, rowval) = any_pattern::<M, N, NNZ>();
+    let mut nzval = vec![0i32; NNZ];
+    let mut k = 0;
+    while k < NNZ {
+        nzval[k] = small_i32(4);
+        k += 1;
+    }
+    CscMatrix { m: M, n: N, colptr, rowval, nzval }
+}
+
+/// symbolic canonical M x N f64 matrix with NNZ stored entries, small integer values
+pub fn any_csc_f64<const M: usize, const N: usize, const NNZ: usize>(lim: i8) -> CscMatrix<f64> {
+    let (colptr, rowval) = any_pattern::<M, N, NNZ>();
+    let mut nzval = vec![0f64; NNZ];
+    let mut k = 0;
+    while k < NNZ {
+        nzval[k] = small_f64(lim);
+        k += 1;
+    }
+    CscMatrix { m: M, n: N, colptr, rowval, nzval }
+}
+
+/// dense meaning of a (dimension-consistent) CSC matrix; duplicates are summed
+pub fn dense_i32<const M: usize, const N: usize>(A: &CscMatrix<i32>) -> [[i32; N]; M] {
+    let mut d = [[0i32; N]; M];
+    let nnz = A.rowval.len();
+    let mut k = 0;
+    while k < nnz {
+        let c = col_of(&A.colptr, k);
+        d[A.rowval[k]][c] += A.nzval[k];
+        k += 1;
+    }
+    d
+}
+
+pub fn dense_f64<const M: usize, const N: usize>(A: &CscMatrix<f64>) -> [[f64; N]; M] {
+    let mut d = [[0f64; N]; M];
+    let nnz = A.rowval.len();
+    let mut k = 0;
+    while k < nnz {
+        let c = col_of(&A.colptr, k);
+        d[A.rowval[k]][c] += A.nzval[k];
+        k += 1;
+    }
+    d
+}
+
+/// bitwise equality of f64 (NaN == NaN, +0 != -0)
+pub fn same_bits(a: f64, b: f64) -> bool {
+    a.to_bits() == b.to_bits()
+}
+
+/// the default settings as a struct literal (the builder allocates and validates strings; not the subject)
+pub fn settings_f64() -> clarabel::solver::DefaultSettings<f64> {
+    settings_t::<f64>()
+}
+
+/// default settings for any scalar type satisfying FloatT (constants converted with from_f64)
+pub fn settings_t<T: FloatT>() -> clarabel::solver::DefaultSettings<T> {
+    let c = |x: f64| T::from_f64(x).unwrap();
+    clarabel::solver::DefaultSettings::<T> {
+        max_iter: 200,
+        time_limit: f64::INFINITY,
+        verbose: false,
+        max_step_fraction: c(0.99),
+        tol_gap_abs: c(1e-8),
+        tol_gap_rel: c(1e-8),
+        tol_feas: c(1e-8),
+        tol_infeas_abs: c(1e-8),
+        tol_infeas_rel: c(1e-8),
+        tol_ktratio: c(1e-6),
+        reduced_tol_gap_abs: c(5e-5),
+        reduced_tol_gap_rel: c(5e-5),
+        reduced_tol_feas: c(1e-4),
+        reduced_tol_infeas_abs: c(5e-12),
+        reduced_tol_infeas_rel: c(5e-5),
+        reduced_tol_ktratio: c(1e-4),
+        equilibrate_enable: true,
+        equilibrate_max_iter: 10,
+        equilibrate_min_scaling: c(1e-4),
+        equilibrate_max_scaling: c(1e+4),
+        linesearch_backtrack_step: c(0.8),
+        min_switch_step_length: c(1e-1),
+        min_terminate_step_length: c(1e-4),
+        max_threads: 0,
+        direct_kkt_solver: true,
+        direct_solve_method: String::new(),
+        static_regularization_enable: true,
+        static_regularization_constant: c(1e-8),
+        static_regularization_proportional: c(4.930380657631324e-32),
+        dynamic_regularization_enable: true,
+        dynamic_regularization_eps: c(1e-13),
+        dynamic_regularization_delta: c(2e-7),
+        iterative_refinement_enable: true,
+        iterative_refinement_reltol: c(1e-13),
+        iterative_refinement_abstol: c(1e-12),
+        iterative_refinement_max_iter: 10,
+        iterative_refinement_stop_ratio: c(5.0),
+        presolve_enable: true,
+        #[cfg(feature = "sdp")]
+        chordal_decomposition_enable: true,
+        #[cfg(feature = "sdp")]
+        chordal_decomposition_merge_method: String::new(),
+        #[cfg(feature = "sdp")]
+        chordal_decomposition_compact: true,
+        #[cfg(feature = "sdp")]
+        chordal_decomposition_complete_dual: true,
+    }
+}
+
+/// a symbolic cone of kind Zero / Nonnegative / SecondOrder (kinds 0,1,2) or a fixed 3-d
+/// exponential / power cone (kinds 3,4) with symbolic dimension 0..=maxdim for the first three
+pub fn any_cone(maxdim: usize) -> SupportedConeT<f64> {
+    let kind: u8 = kani::any();
+    kani::assume(kind <= 4);
+    let d: usize = kani::any();
+    kani::assume(d <= maxdim);
+    match kind {
+        0 => SupportedConeT::ZeroConeT(d),
+        1 => SupportedConeT::NonnegativeConeT(d),
+        2 => SupportedConeT::SecondOrderConeT(d),
+        3 => SupportedConeT::ExponentialConeT(),
+        _ => SupportedConeT::PowerConeT(0.5),
+    }
+}
+
+pub fn is_nn(c: &SupportedConeT<f64>) -> bool {
+    matches!(c, SupportedConeT::NonnegativeConeT(_))
+}
